@@ -11,7 +11,7 @@ use serde_json::{json, Value};
 type M = (Blob, Vec<Att>);
 
 const MIX: [&str; 4] = ["senders", "receivers", "regions", "mixed"];
-const DATA: [&str; 5] = ["empty", "small", "exactly-one-packet", "one-byte-over", "multi-packet"];
+const DATA: [&str; 6] = ["empty", "small", "exactly-one-packet", "one-byte-over", "multi-packet", "2500-bytes"];
 
 fn make(mix: usize, n: usize, nonce: &mut u64) -> (Vec<Att>, Vec<Kept>) {
     let mut a = Vec::with_capacity(n);
@@ -44,7 +44,10 @@ fn make(mix: usize, n: usize, nonce: &mut u64) -> (Vec<Att>, Vec<Kept>) {
     (a, k)
 }
 
-pub fn run_one(sz: &Sizes, n: usize, mix: usize, data: usize, nonce: &mut u64) -> (Vec<(String, Value)>, bool) {
+/// `enobufs`: bit pattern of transmission attempts of this send that the interposer refuses with
+/// ENOBUFS (0 = none). A refused single-packet attempt makes the sender fall back to fragmenting,
+/// which adds one descriptor of its own.
+pub fn run_one(sz: &Sizes, n: usize, mix: usize, data: usize, enobufs: u64, nonce: &mut u64) -> (Vec<(String, Value)>, bool) {
     // encoded size = 8 + len (blob) + 8 (vec length) + 12 per attachment
     let overhead = 16 + 12 * n;
     let len = match data {
@@ -52,14 +55,25 @@ pub fn run_one(sz: &Sizes, n: usize, mix: usize, data: usize, nonce: &mut u64) -
         1 => 300,
         2 => sz.f1.saturating_sub(overhead),
         3 => sz.f1.saturating_sub(overhead) + 1,
-        _ => sz.f1 + sz.f2 + sz.f2 / 3,
+        4 => sz.f1 + sz.f2 + sz.f2 / 3,
+        _ => 2500,
     };
     let (tx, rx) = must("channel", ipc::channel::<M>());
     let (atts, kept) = make(mix, n, nonce);
     *nonce += 1;
     let id = *nonce;
     let mut problems: Vec<(String, Value)> = Vec::new();
+    if enobufs != 0 {
+        if let Some(m) = mon() {
+            m.arm_enobufs(enobufs, 10);
+        }
+    }
     let res = tx.send((Blob(body(id, len)), atts));
+    if enobufs != 0 {
+        if let Some(m) = mon() {
+            m.disarm_enobufs();
+        }
+    }
     let accepted = res.is_ok();
     if accepted {
         // the receive is watched: a mis-assigned dedicated descriptor would make it block forever
@@ -139,8 +153,51 @@ pub fn run(ctx: &Ctx) {
     };
     let mut nonce = ctx.batch << 40;
     let mut idx = 0u64;
-    let mut first_refused = [[usize::MAX; 5]; 4];
-    let mut last_accepted = [[0usize; 5]; 4];
+    let mut first_refused = [[usize::MAX; 6]; 4];
+    let mut last_accepted = [[0usize; 6]; 4];
+    // second pass over the boundary region with the first (and the first two) transmission
+    // attempts refused for lack of buffer space
+    let with_faults = is_os() && mon().is_some();
+    if with_faults {
+        let mut fidx = 0u64;
+        for mix in 0..4 {
+            for data in [1usize, 2, 3, 5] {
+                for pat in [1u64, 3] {
+                    fidx += 1;
+                    if fidx % ctx.nbatch != ctx.batch {
+                        continue;
+                    }
+                    for n in 56..=70usize {
+                        let case = 100_000 + ((mix * 6 + data) as u64) * 1000 + pat * 100 + n as u64;
+                        if !ctx.want(case) {
+                            continue;
+                        }
+                        let _g = op_begin("send-with-many-attachments-under-enobufs", case);
+                        let (problems, accepted) = run_one(&sz, n, mix, data, pat, &mut nonce);
+                        drop(_g);
+                        rep.case(&(mix, data, n, sz.sndbuf, pat), true);
+                        rep.stat("sends_with_refused_attempts", 1);
+                        rep.stat(if accepted { "accepted_after_refused_attempt" } else { "refused_after_refused_attempt" }, 1);
+                        let base = json!({"attachments": n, "mixture": MIX[mix], "data": DATA[data], "sndbuf": sz.sndbuf, "accepted": accepted,
+                            "enobufs_pattern": pat, "variant": variant()});
+                        let mut seen = std::collections::BTreeSet::new();
+                        for (k, d) in problems {
+                            if k == "harness-undecided" {
+                                rep.inconclusive(&format!("c15 case {}: {}", case, d));
+                                continue;
+                            }
+                            if seen.insert(k.clone()) {
+                                rep.violation(&format!("C15:{}:after-enobufs", k), json!({"ctx": base, "problem": d}), ctx.replay(case));
+                            }
+                        }
+                        if rep.nviol.load(std::sync::atomic::Ordering::Relaxed) >= 12 {
+                            return;
+                        }
+                    }
+                }
+            }
+        }
+    }
     for mix in 0..4 {
         for data in 0..5 {
             idx += 1;
@@ -153,7 +210,7 @@ pub fn run(ctx: &Ctx) {
                     continue;
                 }
                 let _g = op_begin("send-with-many-attachments", case);
-                let (problems, accepted) = run_one(&sz, n, mix, data, &mut nonce);
+                let (problems, accepted) = run_one(&sz, n, mix, data, 0, &mut nonce);
                 drop(_g);
                 rep.case(&(mix, data, n, sz.sndbuf), true);
                 rep.stat("sends", 1);
